@@ -98,6 +98,10 @@ def program_tokens(p, ts):
         out += ["N"] if s["limit"] is None else ["Q"] + q_tokens(s["limit"][0], s["limit"][1], ts)
         out += conds_tokens(s["termwhen"]) + natlist(s["monitors"]) + natlist(s.get("reqs", []))
         out += ["N"] if s["compose"] is None else ["Y"] + stmts_tokens(s["compose"], ts)
+        out += natlist(s.get("records", []))
+        out += [str(len(s.get("termsim", [])))]
+        for i, c in s.get("termsim", []):
+            out += [str(i)] + cond_tokens(c)
     out += [str(len(p["objects"]))] + [str(-1 if b is None else b) for b in p["objects"]]
     out += natlist(p["rec_init"]) + natlist(p["records"]) + natlist(p["rec_final"])
     out += conds_tokens(p["termsim"])
@@ -228,6 +232,11 @@ def program_src(p):
                 L.append(f"        terminate simulation when L.tc({idx}, {c})")
         for idx, c in enumerate(s["termwhen"]):
             L.append(f"        terminate when L.tw({i}, {idx}, {c})")
+        if i > 0:
+            for r in s.get("records", []):
+                L.append(f"        record L.r({r}) as r{r}")
+            for idx, c in s.get("termsim", []):
+                L.append(f"        terminate simulation when L.tc({idx}, {c})")
         if s["limit"] is not None:
             L.append(f"        terminate after {num_src(s['limit'][0])} {s['limit'][1]}")
         for rid in s.get("reqs", []):
@@ -279,7 +288,8 @@ def kinds(p):
 
 
 def empty_program(nobj=1):
-    return dict(behaviors=[], monitors=[], scenarios=[dict(pre=[], inv=[], limit=None, termwhen=[], monitors=[], compose=None, reqs=[])],
+    return dict(behaviors=[], monitors=[], scenarios=[dict(pre=[], inv=[], limit=None, termwhen=[], monitors=[], compose=None, reqs=[],
+                                                           records=[], termsim=[])],
                 objects=[None] * nobj, rec_init=[], records=[], rec_final=[], termsim=[], reqs=[])
 
 
@@ -294,6 +304,8 @@ class Gen:
         self.tab_kinds = []          # per row: bias used to draw it
         self.allow_try = allow_try
         self.try_depth = try_depth
+        self.top_guards = 1          # share knob: guards on the top-level scenario
+        self.sub_statements = True   # record / terminate simulation when in sub-scenario setups
 
     def cond(self, bias=0.35, const=0.15):
         r = self.rng.random()
@@ -444,13 +456,22 @@ class Gen:
                 if subs and not any(x[0] in ("DS", "DSF", "DSU") for x in walk(comp)):
                     comp.insert(0, rng.choice([("DS", [subs[0]]), ("DS", [subs[0]]), ("DSF", [subs[0]]) + self.dur(self.seconds),
                                                                       ("DSU", [subs[0]], self.cond())]))
-            guards = i > 0 and rng.random() < 0.3
-            p["scenarios"].append(dict(
-                pre=[self.cond(bias=0.95, const=0.5)] if guards and rng.random() < 0.5 else [],
-                inv=[self.cond(bias=0.93, const=0.3)] if guards else [],
+            guards = rng.random() < (0.3 if i > 0 else 0.3 * self.top_guards)
+            # guards of the top-level scenario are checked when a simulation starts (delayed check): their rows are
+            # balanced so that successive simulations of one compiled scenario differ in the outcome
+            gb = (0.95, 0.93) if i > 0 else (0.7, 0.8)
+            sc = dict(
+                pre=[self.cond(bias=gb[0], const=0.5 if i > 0 else 0.1)] if guards and rng.random() < 0.5 else [],
+                inv=[self.cond(bias=gb[1], const=0.3 if i > 0 else 0.1)] if guards else [],
                 limit=self.dur(self.seconds) if rng.random() < 0.35 else None,
-                termwhen=[self.cond(bias=0.15, const=0.05) for _ in range(rng.choice([0, 0, 1, 2]))] if i == 0 else [],
-                monitors=[], compose=comp))
+                termwhen=[self.cond(bias=0.15, const=0.05) for _ in range(rng.choice([0, 0, 1, 2] if i == 0 else [0, 0, 0, 1]))],
+                monitors=[], compose=comp, records=[], termsim=[])
+            if i > 0 and self.sub_statements:
+                # `record` / `terminate simulation when` stated by the setup block of a sub-scenario: evaluated while
+                # an instance of it is running (ids 100*class + j)
+                sc["records"] = [100 * i + j for j in range(rng.choice([0, 1, 1, 2]))]
+                sc["termsim"] = [(100 * i + j, self.cond(bias=0.1, const=0.05)) for j in range(rng.choice([0, 0, 1]))]
+            p["scenarios"].append(sc)
         for m in range(nm):
             p["scenarios"][rng.randrange(ns)]["monitors"].append(m)
         p["reqs"] = []
@@ -476,3 +497,42 @@ def probe_submonitor_program():
     p["scenarios"][0]["compose"] = [("DS", [1]), ("MK", 1), ("WT",), ("WT",)]
     p["scenarios"].append(dict(pre=[], inv=[], limit=None, termwhen=[], monitors=[0], compose=[("WH", True, [("WT",)])]))
     return p
+
+
+# ------------------------------------------------------------------ structural shapes of finding F27
+def sub_classes_with_statements(p):
+    return {i for i, s in enumerate(p["scenarios"]) if i > 0 and (s.get("records") or s.get("termsim"))}
+
+
+def reach(p, ids):
+    """scenario classes reachable from the given ones through `do` statements of their compose blocks"""
+    seen = set()
+    todo = list(ids)
+    while todo:
+        i = todo.pop()
+        if i in seen or i >= len(p["scenarios"]):
+            continue
+        seen.add(i)
+        for s in walk(p["scenarios"][i]["compose"] or []):
+            if s[0] in ("DS", "DSF", "DSU"):
+                todo += list(s[1])
+    return seen
+
+
+def f27_shape(p, run_index):
+    """(a) a `do S for/until` in a compose block whose sub-scenarios (transitively) state records / simulation
+    termination conditions: they stay in the parent's _subScenarios after the handler stopped them;
+    (b) a later simulation of the same compiled scenario whose top-level compose block does not start with a `do`:
+    the top-level scenario object still lists the previous simulation's sub-scenarios."""
+    marked = sub_classes_with_statements(p)
+    if not marked:
+        return None
+    for sc in p["scenarios"]:
+        for s in walk(sc["compose"] or []):
+            if s[0] in ("DSF", "DSU") and reach(p, s[1]) & marked:
+                return "a"
+    if run_index > 0:
+        comp = [s for s in (p["scenarios"][0]["compose"] or []) if s[0] != "MK"]
+        if not comp or comp[0][0] not in ("DS", "DSF", "DSU"):
+            return "b"
+    return None
